@@ -212,6 +212,44 @@ fn wrappers(ctx: &mut Ctx) {
     match catch(|| nested::internal_edge_sorted(d, 7, dd)) { Ok(_) => {}, Err(p) => ctx.violation("free-fn-internal_edge_sorted-rejects-valid-depth+delta", c.clone(), p) }
     ctx.hard("wrapper", &[d as u64, dd as u64]);
   }
+  // every public spelling of the same thing: free-function wrappers of the external edge, and the direction-specific helpers behind the
+  // dispatchers internal_corner / internal_edge_part / append_internal_edge_part
+  for &(d, h, dd) in [(0u8, 3u64, 1u8), (1, 17, 3), (2, 100, 2), (5, 9000, 4), (12, 123_456, 9), (3, 767, 16), (0, 8, 17), (20, 5_000_000_000, 2)].iter() {
+    let layer = nested::get_or_create(d);
+    ctx.evals_n(12);
+    let c = Case::new("wrapper").u("depth", d as u64).u("h", h).u("dd", dd as u64);
+    match catch(|| (nested::external_edge(d, h, dd).to_vec(), layer.external_edge(h, dd).to_vec(), nested::external_edge_sorted(d, h, dd).to_vec(), layer.external_edge_sorted(h, dd).to_vec())) {
+      Err(p) => ctx.violation("external_edge-panics", c.clone(), p),
+      Ok((a, b, cs, ds)) => { if a != b { ctx.violation("free-fn-external_edge-differs", c.clone(), String::new()); } if cs != ds { ctx.violation("free-fn-external_edge_sorted-differs", c.clone(), String::new()); } }
+    }
+    match catch(|| { let (x, y) = (nested::external_edge_struct(d, h, dd), layer.external_edge_struct(h, dd));
+      (0..4).all(|k| x.get_corner(&card(k)) == y.get_corner(&card(k)) && x.get_edge(&ord(k)) == y.get_edge(&ord(k))) }) {
+      Err(p) => ctx.violation("external_edge_struct-panics", c.clone(), p),
+      Ok(same) => if !same { ctx.violation("free-fn-external_edge_struct-differs", c.clone(), String::new()); }
+    }
+    let r = catch(|| {
+      let mut bad: Vec<&'static str> = Vec::new();
+      if nested::internal_corner_south(h, dd) != nested::internal_corner(h, dd, &Cardinal::S) { bad.push("internal_corner_south"); }
+      if nested::internal_corner_east(h, dd) != nested::internal_corner(h, dd, &Cardinal::E) { bad.push("internal_corner_east"); }
+      if nested::internal_corner_north(h, dd) != nested::internal_corner(h, dd, &Cardinal::N) { bad.push("internal_corner_north"); }
+      if nested::internal_corner_west(h, dd) != nested::internal_corner(h, dd, &Cardinal::W) { bad.push("internal_corner_west"); }
+      if nested::internal_edge_southeast(h, dd) != nested::internal_edge_part(h, dd, &Ordinal::SE) { bad.push("internal_edge_southeast"); }
+      if nested::internal_edge_southwest(h, dd) != nested::internal_edge_part(h, dd, &Ordinal::SW) { bad.push("internal_edge_southwest"); }
+      if nested::internal_edge_northeast(h, dd) != nested::internal_edge_part(h, dd, &Ordinal::NE) { bad.push("internal_edge_northeast"); }
+      if nested::internal_edge_northwest(h, dd) != nested::internal_edge_part(h, dd, &Ordinal::NW) { bad.push("internal_edge_northwest"); }
+      let ap = |f: &dyn Fn(u64, u8, &mut Vec<u64>)| { let mut v = vec![7u64]; f(h, dd, &mut v); v };
+      let dp = |o: &Ordinal| { let mut v = vec![7u64]; nested::append_internal_edge_part(h, dd, o, &mut v); v };
+      if ap(&nested::append_internal_edge_southeast) != dp(&Ordinal::SE) { bad.push("append_internal_edge_southeast"); }
+      if ap(&nested::append_internal_edge_southwest) != dp(&Ordinal::SW) { bad.push("append_internal_edge_southwest"); }
+      if ap(&nested::append_internal_edge_northeast) != dp(&Ordinal::NE) { bad.push("append_internal_edge_northeast"); }
+      if ap(&nested::append_internal_edge_northwest) != dp(&Ordinal::NW) { bad.push("append_internal_edge_northwest"); }
+      // appending keeps what was already in the vector and adds exactly the cells of the side
+      { let v = dp(&Ordinal::NE); let mut tail = v[1..].to_vec(); tail.sort(); let mut want = nested::internal_edge_part(h, dd, &Ordinal::NE).to_vec(); want.sort(); if v[0] != 7 || tail != want { bad.push("append_internal_edge_part-does-not-append-the-side"); } }
+      bad
+    });
+    match r { Err(p) => ctx.violation("internal_corner-panics", c.clone(), p), Ok(bad) => for b in bad { ctx.violation("direction-specific-helper-differs-from-its-dispatcher", c.clone().s("fn", b), b.to_string()); } }
+    ctx.hard("wrapper", &[d as u64, h, dd as u64]);
+  }
   // delta_depth = 0 is outside the statement (its count 4.2^delta - 4 is 0 there, and the code shifts a mask by 64 bits): observed
   // for information only (what a caller gets), never counted as a violation
   for &h in [0u64, 5, 11].iter() {
